@@ -8,6 +8,7 @@ require (
 	github.com/ethereum/go-ethereum v1.9.15
 	github.com/gobwas/ws v1.0.2
 	github.com/gorilla/websocket v1.4.2
+	github.com/vipnode/vipnode-contract v0.2.1
 	github.com/vipnode/vipnode/v2 v2.0.0
 )
 
@@ -48,7 +49,6 @@ require (
 	github.com/syndtr/goleveldb v1.0.1-0.20190923125748-758128399b1d // indirect
 	github.com/tyler-smith/go-bip39 v1.0.2 // indirect
 	github.com/vipnode/ether v0.0.0-20181219204546-d717f248a245 // indirect
-	github.com/vipnode/vipnode-contract v0.2.1 // indirect
 	github.com/wsddn/go-ecdh v0.0.0-20161211032359-48726bab9208 // indirect
 	golang.org/x/crypto v0.0.0-20200604202706-70a84ac30bf9 // indirect
 	golang.org/x/net v0.0.0-20200602114024-627f9648deb9 // indirect
